@@ -46,8 +46,14 @@ def normalise(node, d, names, f32=lambda x: x):
 
 # ---- union branch rule (C09 as stated) ---------------------------------------------------
 
+class Silent(Exception):
+    """the property text does not determine the branch for this datum (not asserted)"""
+
+
 def choose_branch(n, d, names, tuple_notation=True):
-    """returns (index, value without hint); raises SpecError when no branch applies"""
+    """The rule of property C09.  returns (index, value without hint); raises SpecError when
+    the rule says writing is an error, Silent where the statement leaves the choice open
+    (a datum conforming to both a record branch and a non-record branch)."""
     brs = n["branches"]
     if isinstance(d, tuple) and tuple_notation:
         name, val = d
@@ -55,26 +61,29 @@ def choose_branch(n, d, names, tuple_notation=True):
             if branch_name(b, names) == name:
                 return i, val
         raise SpecError("hint names no branch")
-    best, most = None, -1
+    recs, nonrecs = [], []
     for i, b in enumerate(brs):
-        if not conforms(b, d, names, tuple_notation=tuple_notation):
-            continue
-        bn = deref(b, names)
-        if bn["k"] == "record":
-            shared = len({f["name"] for f in bn["fields"]} & set(d))
-            if shared > most:
-                best, most = i, shared
-            continue
-        if bn["k"] == "float":
-            # a later double is preferred
+        if conforms(b, d, names, tuple_notation=tuple_notation):
+            (recs if deref(b, names)["k"] == "record" else nonrecs).append(i)
+    if recs and nonrecs:
+        raise Silent()
+    if isinstance(d, dict) and "-type" in d and nonrecs:
+        raise Silent()
+    if nonrecs:
+        i = nonrecs[0]
+        if deref(brs[i], names)["k"] == "float":
             for j in range(i + 1, len(brs)):
                 if deref(brs[j], names)["k"] == "double":
                     return j, d
-            return i, d
         return i, d
-    if best is None:
-        raise SpecError("no conforming branch")
-    return best, d
+    if recs:
+        best, most = None, -1
+        for i in recs:
+            shared = len({f["name"] for f in deref(brs[i], names)["fields"]} & set(d))
+            if shared > most:
+                best, most = i, shared
+        return best, d
+    raise SpecError("no conforming branch")
 
 
 # ---- spec encoder over tokens ------------------------------------------------------------
